@@ -5,6 +5,7 @@ import (
 	"errors"
 	"fmt"
 	"reflect"
+	"strings"
 	"sync/atomic"
 	"time"
 
@@ -77,10 +78,28 @@ type GenSchema struct {
 	// nil or left a source out: the builder must then fail the request (function.go / batch.go), which the
 	// oracle accepts as the one legitimate execution error.
 	NonNullNil int32
-	// OmitMarshalers: batch funcs may leave out entries also when the result is a text marshaler value
-	// (thunder's unwrapper for text marshalers panics on the missing value, on an executor goroutine:
-	// known finding until C14-fix-3 is in the tree; off by default).
-	OmitMarshalers bool
+	// EnumNoValue is set (at run time) when a batch resolver left out the entry of a source for an enum-typed
+	// result: the field is advertised nullable (batch results are), but an enum has no null rendering and
+	// thunder fails the request with "enum is not valid" - the resolver's doing, accepted by the oracle.
+	EnumNoValue int32
+}
+
+// ResetExcuses clears the run-time flags before a query is executed.
+func (g *GenSchema) ResetExcuses() {
+	atomic.StoreInt32(&g.NonNullNil, 0)
+	atomic.StoreInt32(&g.EnumNoValue, 0)
+}
+
+// Excused reports whether the execution error is one the generated resolvers caused themselves during this
+// query (they said so through the flags), and which.
+func (g *GenSchema) Excused(msg string) string {
+	switch {
+	case atomic.LoadInt32(&g.NonNullNil) != 0 && strings.Contains(msg, "is marked non-nullable but returned a null value"):
+		return "nonnullable-nil-rejected"
+	case atomic.LoadInt32(&g.EnumNoValue) != 0 && strings.Contains(msg, "enum is not valid"):
+		return "enum-without-value-rejected"
+	}
+	return ""
 }
 
 // PRow is a keyed static struct for paginated fields.
@@ -181,10 +200,8 @@ var (
 type xArgs struct{ X int64 }
 
 // NewGenSchema builds a random schema from r.
-func NewGenSchema(r *vh.Rng) *GenSchema { return NewGenSchemaOpt(r, false) }
-
-func NewGenSchemaOpt(r *vh.Rng, omitMarshalers bool) *GenSchema {
-	g := &GenSchema{OmitMarshalers: omitMarshalers, Builder: schemabuilder.NewSchema(), ArgSamples: map[string][]string{}, Shapes: map[string]int{}, rng: r}
+func NewGenSchema(r *vh.Rng) *GenSchema {
+	g := &GenSchema{Builder: schemabuilder.NewSchema(), ArgSamples: map[string][]string{}, Shapes: map[string]int{}, rng: r}
 	s := g.Builder
 	s.Enum(Shade(0), map[string]Shade{"LIGHT": Shade(0), "MID": Shade(1), "DARK": Shade(2)})
 
@@ -444,21 +461,17 @@ func (g *GenSchema) addBatch(r *vh.Rng, o *schemabuilder.Object, owner, name str
 			}
 		}
 		for _, k := range keys {
-			if rr.Chance(4) && (g.OmitMarshalers || !isTextMarshaler(ret)) { // an entry left out
+			if rr.Chance(4) { // an entry left out
 				if nonNullable {
 					atomic.StoreInt32(&g.NonNullNil, 1)
 				}
+				if ret == reflect.TypeOf(Shade(0)) {
+					// an enum has no null rendering: thunder fails the request with "enum is not valid"
+					atomic.StoreInt32(&g.EnumNoValue, 1)
+				}
 				continue
 			}
-			v := g.nnValue(rr, ret, nonNullable)
-			if !g.OmitMarshalers && isTextMarshaler(ret) && ret.Kind() == reflect.Ptr && v.IsNil() {
-				// (a nil *TextMarshaler in a batch result reaches the unwrapper as "no value", like a missing entry)
-				v = reflect.New(ret.Elem())
-				if nonNullable {
-					atomic.StoreInt32(&g.NonNullNil, 0)
-				}
-			}
-			m.SetMapIndex(k, v)
+			m.SetMapIndex(k, g.nnValue(rr, ret, nonNullable))
 		}
 		res := []reflect.Value{m}
 		if len(bout) == 2 {
@@ -486,13 +499,6 @@ func (g *GenSchema) addBatch(r *vh.Rng, o *schemabuilder.Object, owner, name str
 	}
 	g.Shapes["func-ret:"+shapeOf(ret)]++
 	g.Shapes["func-form:"+form]++
-}
-
-func isTextMarshaler(t reflect.Type) bool {
-	for t.Kind() == reflect.Ptr {
-		t = t.Elem()
-	}
-	return t == reflect.TypeOf(Stamp{})
 }
 
 // addPaginated registers a Paginated FieldFunc returning a slice of a keyed struct, with filter and sort fields.
